@@ -34,7 +34,9 @@ type Scenario struct {
 	// vacuity guard. Optional.
 	Outcome func(obs any) string
 	// DeadlockClass optionally names a deadlock from the blocked-goroutine
-	// descriptions ("" = use the generic class: the set of non-harness wait sites).
+	// descriptions ("" = use the generic class: the set of non-harness wait sites;
+	// "-" = this deadlock is acceptable for the scenario, e.g. a handshake that must not
+	// complete because the peer withheld a packet).
 	DeadlockClass func(blocked []string) string
 	// DeadlockOK: a deadlock (no enabled goroutine before Body returned) is not a
 	// violation for this scenario (default false: the property forbids it).
@@ -111,7 +113,9 @@ func judge(sc *Scenario, x *sched.Exec, obs any) (class, detail string) {
 			return "", ""
 		}
 		if sc.DeadlockClass != nil {
-			if cl := sc.DeadlockClass(x.Blocked); cl != "" {
+			if cl := sc.DeadlockClass(x.Blocked); cl == "-" {
+				return "", "" // the scenario accepts this deadlock
+			} else if cl != "" {
 				return cl, strings.Join(x.Blocked, "; ")
 			}
 		}
